@@ -99,6 +99,15 @@ CLAIMED = {
              "interpreter that a started Task equals its eager twin and that cancellation runs no value callback, and every "
              "program is executed on the real Task API (nothing may run before the start).",
         note=SEQ_NOTE, design="7/C12", technique="TLA+ reference interpreter; TLC-enumerated programs replayed on the code"),
+    "C18": dict(
+        text="FiberSync.tla states the std contracts (compatibility of holders, success / failure conditions of try and "
+             "timed acquisitions, wait / notify, sleep, join, TLS) as a state machine over begin / end observations of API "
+             "calls; FiberLocks.tla models the fiber implementation of the six lock types with its wait queues and TLC checks "
+             "it against the contract (exclusion, no lost wake-up) for 3 fibers x 8 programs; executions of random programs "
+             "on the real primitives, with every injection point a controller-chosen scheduling point and the controller "
+             "firing the virtual clock, are validated against the contract by TLC.",
+        note="one lock + one condition variable per scenario; 2-4 fibers; trusted: TLC, hooks, harness", design="7/C18",
+        technique="TLA+ contract + implementation model checked by TLC; TLC trace validation of recorded executions"),
     "C19": dict(
         text="Atomic.tla transcribes the std::atomic<T> operation semantics (limb arithmetic, exact for 8..64 bit); TLC "
              "explores all operation sequences up to the depth bound from boundary initial values, checks the CAS and "
@@ -159,7 +168,7 @@ def main():
 
 
 HOOK_COMMITS = ["286d692", "d1e7f53"]
-FIX_COMMITS = ["8086256", "48cc44a", "6c036e9", "8faf037"]
+FIX_COMMITS = ["8086256", "48cc44a", "6c036e9", "8faf037", "f30eead", "d8002b9", "fc2e11e"]
 
 if __name__ == "__main__":
     main()
